@@ -8,6 +8,7 @@ names="$*"
 for n in $names; do
   d=seeded/$n
   [ -f "$d/patch.diff" ] || continue
+  if grep -q superseded_by_fix "$d/meta.json"; then echo "$n: superseded by a fix: commit (see meta.json)"; continue; fi
   ids=$(python3 -c "import json;m=json.load(open('$d/meta.json'));print(' '.join([m['property']]+m.get('also',[])))")
   r=$(tools/mutant.sh "$d/patch.diff" $ids 2>&1 | grep -E '^C[0-9]+ exit=' | sed -E 's/^(C[0-9]+ exit=[0-9]+).*class=([a-z-]+).*/\1(\2)/; s/^(C[0-9]+ exit=[0-9]+) *$/\1/' | tr '\n' ' ')
   echo "$n: $r"
